@@ -43,6 +43,22 @@ pub fn collections() -> u64 { COLLECTIONS.with(|c| c.get()) }
 pub fn swept() -> u64 { SWEPT.with(|c| c.get()) }
 
 // ---------------------------------------------------------------------------
+// H5: armed override of the automatic-collection threshold
+// ---------------------------------------------------------------------------
+thread_local! {
+    static GC_THRESHOLD_OVERRIDE: Cell<isize> = const { Cell::new(0) };
+}
+/// While armed (`n > 0`) every heap of this thread collects before an allocation as soon as its
+/// net allocation count reaches `n`, whatever its own threshold says (1 = before every allocation).
+/// 0 disarms. For harnesses that cannot reach `Heap::set_gc_threshold` (C API contexts).
+pub fn gc_threshold_override_set(n: usize) { GC_THRESHOLD_OVERRIDE.with(|c| c.set(n as isize)); }
+#[inline]
+pub fn gc_threshold_override_due(net_allocs: isize) -> bool {
+    let n = GC_THRESHOLD_OVERRIDE.with(|c| c.get());
+    n > 0 && net_allocs >= n
+}
+
+// ---------------------------------------------------------------------------
 // H2: parser/lexer work counter
 // ---------------------------------------------------------------------------
 thread_local! {
